@@ -155,3 +155,19 @@ func vh_C11_spellings() {
 		vAssert(len(l3) >= 1 && l3[0] == l1[0], "normalising an already canonical location changes it")
 	}
 }
+
+// relative spellings are taken against the working directory at the time of the call
+func vh_C11_chdir() {
+	seg := vC11Seg("seg", 1+vChoose(vParam("seg_len", 2), "seglen"))
+	d1, d2 := vTwoDirs()
+	vChdir(d1)
+	l1, _ := vC11Observe(seg, "")
+	vChdir(d2)
+	l2, _ := vC11Observe(seg, "")
+	c2, _ := vC11Observe("file://"+d2+"/"+seg, "")
+	vChdir(d1)
+	vAssert(len(l1) >= 1 && len(l2) >= 1 && len(c2) >= 1, "loader not called")
+	if len(l2) >= 1 && len(c2) >= 1 {
+		vAssert(l2[0] == c2[0], "a relative root location is not taken against the current working directory")
+	}
+}
